@@ -46,11 +46,18 @@ class Builder:
         org, _ = self._regions[nc]
         return self.Grid.from_origins(org, dh=1.0)
 
-    def forecast(self, data, name='f'):
+    def forecast(self, data, name='f', layout='C'):
+        """layout: 'C' contiguous, 'F' Fortran-ordered, 'T' a transposed view of a (magnitude, cell) table - the rate
+        of (cell, bin) is the same in all three, only the memory order differs"""
         numpy = self.numpy
         nc, nb = data.shape
         mags = numpy.array([4.0 + b for b in range(nb)])
-        return self.GF(region=self.region(nc), magnitudes=mags, data=numpy.array(data, dtype=float), name=name)
+        arr = numpy.array(data, dtype=float)
+        if layout == 'F':
+            arr = numpy.asfortranarray(arr)
+        elif layout == 'T':
+            arr = numpy.ascontiguousarray(arr.T).T
+        return self.GF(region=self.region(nc), magnitudes=mags, data=arr, name=name)
 
     def catalog(self, w, nc, nb, rng=None):
         data = []
@@ -180,7 +187,7 @@ def run(chk, replay=None):
         for _ in range(n_obs):
             c, b = rng.choice(zer) if (zer and rng.random() < 0.02) else rng.choice(pos[: max(1, len(pos) // 3)] if rng.random() < 0.6 else pos)
             w[c][b] += 1
-        fc = B.forecast(data)
+        fc = B.forecast(data, layout=['C', 'F', 'T'][(t // 4) % 3])
         cat = B.catalog(w, nc, nb, rng)
         nsim = 3
         sims = []
